@@ -47,10 +47,12 @@ CLAIMED = {
               "never fewer than the property demands elsewhere (xyz_precision, xyz_precision_general), out-of-range raises (xyz_out_of_range_raises, line_out_of_range_raises); for every "
               "row that fits its fields the line is 80 columns with every attribute in its wwPDB columns incl. the name alignment (line_width, line_columns); parsing the exported line gives "
               "the row back within half a unit of the printed precision / 0.005 and identical text attributes (roundtrip, roundtrip_row_fits, int_roundtrip, float_roundtrip); re-export "
-              "(reexport_ok, reexport_same_value_partial: exact same values except at the thresholds 999999.5 / -99999.5 where the second export has fewer decimals). "
+              "(reexport_ok, reexport_same_value_partial: exact same values except at the thresholds 999999.5 / -99999.5 where the second export has fewer decimals); a canonical ATOM record (decidable Spec.Canonical; "
+              "all 1856 records of 3CRO are) is reproduced unchanged in columns 1-66 and 77-78 (canonical_reproduced, canonical_reproduced_whole); the exported file is one record per line, an appended export never glues "
+              "records, and reading the file back gives the read-back rows in order (export_readlines, export_append_no_glue, file_roundtrip). "
               "Correspondence: every row is written into a real database, exported, re-parsed and re-exported; implementation = translated model text for text and the Lean checker accepts "
               "every line; every multiple of 0.0005 around all switch thresholds, range ends and powers of ten; bundled and synthetic canonical records reproduced."),
-        note=BASE_NOTE + "Assumed: CPython's '{:.kf}' is correctly rounded (= Py.fmtFixed, compared on every sample); -0.0 not modelled; canonical_reproduced is checked on files, not proved.",
+        note=BASE_NOTE + "Assumed: CPython's '{:.kf}' is correctly rounded (= Py.fmtFixed, compared on every sample); -0.0 not modelled.",
         technique='Lean 4 theorems over the translated formatter (width, columns, round trip for all rows that fit) + differential correspondence',
         design_ref='DESIGN.md 5/C02, 12'),
     'C09': dict(
@@ -58,10 +60,13 @@ CLAIMED = {
         text=("The zone writer's line format and read_zone's line parser are translated from the current source on every run. Theorems (Props/C09.lean): for every chain character other "
               "than '-'/blank and EVERY integer residue number the written line is read back as exactly that residue (read_write_zone, read_write_zone_file), the format itself "
               "(zone_line_format), and the recorded counterexample for chain '-' (known finding C09-F4, reported as KNOWN-FINDING). get_izone_rowID now calls read_zone (fix commit), so one "
-              "reader serves every routine. Route agreement {fast,SQL} x {svd,quaternion} x {no zone, zone written, zone read} is a metamorphic comparison on generated complexes (equal chains, "
-              "rank-flipping side chains, incomplete decoys, negative numbering, mirror-image decoys) - sampled, not proved here (the pairing theorems of C07/C08 state it per route)."),
-        note=BASE_NOTE + "Route agreement is sampled; values compared after the library's own rounding.",
-        technique='Lean 4 theorem (zone round trip for all chains/numbers) over the translated reader/writer + metamorphic route comparison',
+              "reader serves every routine. Route agreement is proved on the models: the fast and the SQL routine of i-RMSD and of L-RMSD hand the kernel permutations "
+              "of the same list, hence equal deviations, minima and fit-then-evaluate values, and return a value on the same inputs (fast_eq_sql_irmsd, fast_eq_sql_lrmsd); the zone computed in memory, written to an absent file or "
+              "read back from that file gives the same outcome, also for the SQL i-RMSD routine (zone_sources_agree, irmsdSql_zone_file); Fnat fast = SQL is C08's fast_eq_sql_fnat and svd = quaternion C06's methods_agree. "
+              "Correspondence: {fast,SQL} x {svd,quaternion} x {no zone, zone written, zone read} compared on generated complexes (equal chains, rank-flipping side chains, chain-size-flipping incomplete decoys, negative and "
+              "4-digit numbering, mirror-image decoys)."),
+        note=BASE_NOTE + "Route theorems need single-character chain IDs other than '-'/blank (C09-F4) and the RawAgrees/Consistent conditions of C07; values compared after the library's own rounding.",
+        technique='Lean 4 theorems (zone round trip for all chains/numbers over the translated reader/writer; route agreement as corollaries of the pairing theorems) + metamorphic route comparison',
         design_ref='DESIGN.md 5/C09, 12'),
     'C16': dict(
         category='proof',
@@ -71,11 +76,12 @@ CLAIMED = {
               "source_zone_published_by_replace); for every routine, option and branch the footprint is inputs + requested outputs + the zone cache + an own temp that is gone at the end "
               "(footprint_sound); unrelated files unchanged, inputs unchanged, value and zone left behind identical for any two directories agreeing on inputs and cache (frame_fs, inputs_unchanged, "
               "depends_on_args_only); for ANY number of computations in one directory and EVERY schedule each finished task has exactly its solo value or exception, incl. routines sharing one zone-file "
-              "cache over one reference (noninterference, noninterference_every_schedule - rely/guarantee invariant by induction on the schedule); regressions: the old in-place writer and the old fixed-name "
+              "cache over one reference (noninterference, noninterference_every_schedule - rely/guarantee invariant by induction on the schedule; noninterference_zone_files instantiates zones as the lines of the translated writer/reader "
+              "with the round trip discharged by C09); regressions: the old in-place writer and the old fixed-name "
               "scratch database interfere (inplace_write_counterexample, fixed_scratch_counterexample). Tie to the code: audit-hook effect traces of all 13 routines x options in empty and pre-seeded "
               "directories compared with the model's traces and judged by the Spec; directory snapshots; a deterministic scheduler enumerates interleavings of real runs at file-operation granularity "
               "(supporting exploration) and replays schedules in the Lean model."),
-        note=BASE_NOTE + "Not proved: os.replace atomic, one audited call indivisible, SQLite's own I/O; a routine that only READS a shared zone file while another publishes it; the zone round trip enters as a hypothesis (proved separately as C09 read_write_zone_file).",
+        note=BASE_NOTE + "Not proved: os.replace atomic, one audited call indivisible, SQLite's own I/O; a routine that only READS a shared zone file while another publishes it; chain identifiers '-'/blank excluded from the instantiated zone-file theorem (C09-F4).",
         technique='Lean 4 proof over all schedules of an effect-program model + effect-trace correspondence (audit hooks) + enumerated interleavings of real runs',
         design_ref='DESIGN.md 5/C16, 12'),
     'C20': dict(
@@ -210,7 +216,8 @@ CLAIMED = {
         category='proof',
         text=("Model/TableWorld.lean: a world is a list of private tables; sub-selection, interface(db) and many2sql([db,...]) derive roundtrip(selected rows) where the text round trip is a parameter (C02 proves its properties). "
               "Theorems (Props/C15.lean): the new object equals the round trip of the selected rows of the source AT THAT MOMENT, all earlier modifications included; an empty selection raises and creates nothing "
-              "(export_is_selection, snapshot); every later step on one object leaves every other object unchanged, for all histories (independence_step, independence, modify_is_own_step, derived_and_source_independent). "
+              "(export_is_selection, snapshot), and with the concrete text round trip of C02 the derived rows are the read-back of the selected rows: identical text/integer attributes, coordinates within half a unit "
+              "of the printed precision, occupancy/B-factor within 0.005, deriving again changes nothing (roundtrip_is_readBack, snapshot_text_precision, derive_again_changes_nothing); every later step on one object leaves every other object unchanged, for all histories (independence_step, independence, modify_is_own_step, derived_and_source_independent). "
               "What makes independence true of the code - one private SQLite connection per object - is what the correspondence exercises: histories of 5-25 steps over a growing family of <= 6 objects interleaving "
               "modifications and the three derivations, get('*') of EVERY live object compared with its model table after EVERY step."),
         note=BASE_NOTE + "Independence holds in the model by construction; its truth for the code rests on the correspondence histories.",
@@ -220,10 +227,11 @@ CLAIMED = {
         category='proof',
         text=("Model/TableJoin.lean: INNER JOIN ... ON every pair of tables agreeing on every match key = nested-loop join; per-table slicing of the joined tuple. Theorems (Props/C19.lean): every joined row carries the same "
               "key in all components (join_aligned); component k of a joined row is a row of structure k (own_values); a key is in the output iff it occurs in every structure (join_sound_complete); with unique keys each common "
-              "key appears exactly once (join_once); intersection_is_sliced_join, per_table_query; default_match_is_the_source's pins the translated default. Correspondence: 2-4 structures from a common parent by independent "
+              "key appears exactly once (join_once); intersection_is_sliced_join, per_table_query; the intersected database holds one table per structure whose k-th table is the round trip of component k of the join (intersect_tables, intersect_tables_text); "
+              "default_match_is_the_source's pins the translated default. Correspondence: 2-4 structures from a common parent by independent "
               "deletions, coordinate changes, point mutations and record permutations x EVERY match-key subset (through both get_intersection and intersect(match=...)) x attribute lists, compared as sorted lists of aligned "
               "tuples (SQL row order is never relied upon); every table of the intersected database read back."),
-        note=BASE_NOTE + "INNER JOIN = nested loop is sampled; intersect() itself (re-export of the joined rows) is compared through correspondence, without a theorem of its own.",
+        note=BASE_NOTE + "INNER JOIN = nested loop is sampled.",
         technique='Lean 4 proof over a nested-loop join model + differential correspondence for every match-key subset',
         design_ref='DESIGN.md 5/C19, 12'),
     'C07': dict(
@@ -234,7 +242,8 @@ CLAIMED = {
               "shorter chain of the reference (L-RMSD) - or raises exactly when the definition's list is empty or enforcement demands it (irmsd_pairs_fast/_sql, lrmsd_pairs_fast/_sql); the msd depends only on the multiset of "
               "pairs (rmsd_perm_invariant); every reordering of either file gives the same multiset or an explicit error (paired_by_identity_not_position); missing atoms are left out / reported when enforced; the reported "
               "radicand is the minimum over all rigid motions (centroid_optimal_translation, irmsd_is_min, lrmsd_is_fit_then_eval) with the kernel hypothesis discharged from C06 (kernel_optimal_from_C06); identical "
-              "structures score 0 (identical_scores_zero, L-RMSD partial without rank >= 2). Correspondence: generated complexes and decoys (jitter, rigid moves, deletions, interleaving, negative/4-digit numbering), cutoffs 5-12, "
+              "structures score 0 (identical_scores_zero, L-RMSD partial without rank >= 2); the raw-column readers are PROVED to see the parsed table for files that parse and whose chain column is non-blank "
+              "(raw_agrees_of_parse, pairs_of_parsed_files), and the kernel hypothesis is discharged for both methods (kernel_optimal_from_C06_quaternion, irmsd_is_min_both_methods). Correspondence: generated complexes and decoys (jitter, rigid moves, deletions, interleaving, negative/4-digit numbering), cutoffs 5-12, "
               "both routines x both methods x enforcement; values recomputed from the model's and the Spec's pairs with an independent optimiser (0.0005 + 1e-9)."),
         note=BASE_NOTE + "Float evaluation of the kernel and round(.,3) sampled; RawAgrees is a checked hypothesis; the check=False positional path is modelled and sampled, not claimed.",
         technique='Lean 4 proof that each route pairs exactly the definition\'s atoms (multiset equality) + minimality via C06 + differential correspondence with an independent optimiser',
